@@ -37,6 +37,8 @@ void World::exec(const Step &s)
     else if (op == "release")   opRelease(s);
     else if (op == "drain")     opDrain(s);
     else if (op == "masscopy")  opMassCopy(s);
+    else if (op == "hoard")     opHoard(s);
+    else if (op == "unhoard")   opUnhoard(s);
     else if (op == "detach")    opDetachAttach(s);
     else if (op == "purge")     opPurge(s);
     else if (op == "rebuild")   opRebuild(s);
@@ -146,6 +148,7 @@ void World::stopLibraryAndEdges()
         }
         for (size_t i = edges.size(); i; ) dropEdge(--i);
     }
+    dropHoards();
     for (FileSlot* f : files) delete f;
     files.clear();
     std::string err;
